@@ -270,6 +270,29 @@ def check(ctx, rep):
                     elif not any(e.kind == "call" and (dotted(e.node.func) or "").endswith("GopherExceptions.log") for e in after):
                         tests = [f"{norm(e.node)[:50]} is {bool(e.extra)}" for e in after if e.kind == "test" and e.extra is not None]
                         problems.append(f"a {exc} from protocol.handle() is not logged when {tests[0] if tests else 'it is caught'}")
+        # ... and whatever the connection handler itself writes to the client fails the same way
+        def rp_w(call, target):
+            f_ = call.func
+            if isinstance(f_, ast.Attribute) and f_.attr in ("write", "writelines", "flush", "sendall", "send") \
+                    and any(x in norm(f_.value) for x in ("wfile", "self.request", "self.connection")):
+                return ["BrokenPipeError"]
+            return []
+
+        w_ = Walker(prog, ctx.resolver, raise_points=rp_w, max_paths=20000,
+                    inline=lambda fn, t, d: d < 3 and (t.bound_cls is not None or fn.module is rh.module) and fn.name != "handle")
+        try:
+            for p in w_.run(rh, rh.cls):
+                at = [i for i, e in enumerate(p.events) if e.kind == "raise" and e.extra == "implicit" and isinstance(e.node, ast.Call)
+                      and isinstance(e.node.func, ast.Attribute) and e.node.func.attr in ("write", "writelines", "flush", "sendall", "send")]
+                if not at:
+                    continue
+                site = norm(p.events[at[0]].node)[:50]
+                if p.kind == "raise":
+                    problems.append(f"a broken connection while the connection handler itself writes (`{site}`) leaves the handler: nothing contains or logs it")
+                elif not any(e.kind == "call" and (dotted(e.node.func) or "").endswith("GopherExceptions.log") for e in p.events[at[0]:]):
+                    problems.append(f"a broken connection while the connection handler itself writes (`{site}`) is not logged")
+        except Exception:
+            problems.append("could not enumerate the connection handler's paths")
         rep.add("R20a", "connection handler contains and logs failures", not problems, ctx.where(rh), "; ".join(sorted(set(problems))),
                 key="R20a|handle|" + ";".join(sorted(set(problems))))
     bs = ctx.cls("server.BaseServer")
